@@ -260,3 +260,28 @@ def _one_boundary_case(entry, pass_name: str, fault: str) -> list:
         # a successful inference may legitimately add shapes/types
         diff = [k for k in diff if k not in ("shapes", "types")]
     return diff
+
+
+def replay_detail(ctx, detail: dict, want: str) -> bool:
+    """Re-run one recorded case on the current tree. True if it still violates."""
+    if "entry" in detail:
+        diff = _one_boundary_case(tuple(tuple(e) for e in detail["entry"]), detail["passes"], detail["fault"])
+        print("changed after the pass:", diff)
+        return bool(diff)
+    P = detail["program"]
+    names = detail["passes"].split("+")
+    r = passrun.run_program(P, detail.get("program_id", 0), ctx.seed, pass_names=None, with_sequences=False) if False else None
+    proto = passrun.rewrite.concretize(P, variant=detail.get("program_id", 0))
+    model = ir.from_proto(onnx.load_from_string(proto.SerializeToString()))
+    before = passrun.ser(model)
+    passes = [passrun.PASSES[n]() for n in names]
+    res = (passes[0] if len(passes) == 1 else ir.passes.Sequential(*passes))(model)
+    after = passrun.ser(res.model)
+    print("modified flag:", res.modified, "bytes changed:", after != before)
+    if want == "C05":
+        w = passrun.concrete_witness(proto.SerializeToString(), after, ctx.seed)
+        print("witness:", w)
+        return bool(w)
+    bad = irobs.tlc_check_states(ctx, [(0, irobs.project_model(res.model))], tag="replay-obs")
+    print("broken invariants:", bad)
+    return bool(bad) or (not res.modified and after != before)
